@@ -112,6 +112,18 @@ def holder_case(rng):
         for a in rng.sample(arrs, 2):
             w.emit('link ref %s handle %s' % (h.slot, a.slot))
     if rng.random() < 0.5: w.reopen('rw')
+    # a feature deleted — by handle, by its id, by the name or the id of its data array (all of which has / get accept): the holder
+    # does not list it any more, its handle is invalid, the other features and the arrays are untouched
+    for h in (m, t):
+        fs = [f for f in w.alive('R', parent=h.slot) if f.data is not None and f.data.alive]
+        # (an array may carry two features of one holder: then the lookup by array finds the first only — one feature per array here)
+        fs = [f for f in fs if sum(1 for g in fs if g.data is f.data) == 1]
+        if fs and rng.random() < 0.8:
+            f = rng.choice(fs)
+            w.emit('dump'); w.emit('xfeat %s' % h.slot)
+            w.emit('del R %s %s' % (h.slot, rng.choice(['handle ' + f.slot, 'idof ' + f.slot, 'name ' + S(f.data.name), 'idof ' + f.data.slot])))
+            w.kill(f)
+            w.emit('dump'); w.emit('valid %s deleted' % f.slot); w.emit('xfeat %s' % h.slot); w.emit('xcheck R %s' % h.slot)
     order = list(arrs); rng.shuffle(order)
     for v in order[:rng.randint(1, 3)]:
         w.emit('dump')
@@ -120,6 +132,47 @@ def holder_case(rng):
         w.emit('dump')
         w.emit('valid %s deleted' % v.slot)
         w.emit('xcheck R %s' % m.slot); w.emit('xcheck R %s' % t.slot); w.emit('xfeat %s' % m.slot); w.emit('xfeat %s' % t.slot)
+    return w.lines
+
+def source_chain_case(rng):
+    """a chain of sources rig → probe → shank (→ site), only SOME of the links of the chain attached to holders — the unattached
+    ones in between must not stop the cascade: the root deleted by name, id or handle through the block, or a middle one through
+    its parent; every descendant goes, no holder lists any of them, their handles are invalid"""
+    w = World(rng, names=PLAIN)
+    w.open('ow')
+    b = w.mk('B', None, name='b')
+    holders = [w.mk('A', b, name='arr', extra=[2]), w.mk('T', b, name='tag'), w.mk('G', b, name='grp'), w.mk('D', b, name='frame')]
+    depth = rng.randint(3, 5)
+    chain = [w.mk('O', b, name='rig')]
+    for k in range(1, depth):
+        chain.append(w.mk('O', chain[-1], name='lvl%d' % k))
+        if rng.random() < 0.4: w.mk('O', chain[-2], name='side%d' % k)
+    keeper = w.mk('O', b, name='keeper')
+    attached = [e for e in chain[1:] if rng.random() < 0.5] or [chain[-1]]
+    if rng.random() < 0.7 and len(chain) > 2 and chain[1] in attached: attached.remove(chain[1])     # the direct child often unattached
+    for e in attached + [keeper]:
+        for h in rng.sample(holders, rng.randint(1, 3)):
+            w.emit('link src %s %s' % (h.slot, rng.choice(['handle ' + e.slot, 'idof ' + e.slot])))
+    if rng.random() < 0.5: w.reopen('rw')
+    v = chain[0] if rng.random() < 0.7 else rng.choice(chain[1:-1])
+    below, frontier = [], [v.slot]
+    while frontier:
+        nxt = [e for e in w.ents if e.alive and e.parent in frontier]
+        below += nxt; frontier = [e.slot for e in nxt]
+    for h in holders: w.emit('xlinks src %s' % h.slot)
+    w.emit('dump')
+    how = rng.choice(['name', 'handle', 'idof'])
+    if how == 'idof':
+        w.emit('del O %s idof %s' % (v.parent, v.slot)); w.kill(v)
+    else:
+        w.delete(v, how)
+    w.emit('dump')
+    w.emit('valid %s deleted' % v.slot)
+    for e in below: w.emit('valid %s deleted' % e.slot)
+    for h in holders:
+        w.emit('xlinks src %s' % h.slot); w.emit('countlink src %s' % h.slot); w.emit('listlink src %s' % h.slot)
+    w.reopen(rng.choice(['ro', 'rw']))
+    w.emit('dump')
     return w.lines
 
 def frame_case(rng):
@@ -175,10 +228,56 @@ def many_holders_case(rng, n):
         w.emit('dump'); w.delete(v, rng.choice(['name', 'handle'])); w.emit('dump'); w.emit('valid %s deleted' % v.slot)
     return w.lines
 
+def twins(w, rng):
+    """entities of different parents that share a name: two blocks with an array / frame / tag / group / root source `twin` each, a
+    nested source `twin`, two sections with a child `twin` each — material for deletes and unlinks BY HANDLE through the wrong parent"""
+    bs = w.alive('B')[:2]
+    while len(bs) < 2: bs.append(w.mk('B', None))
+    made = []
+    for b in bs:
+        for k in rng.sample(['A', 'D', 'T', 'G', 'O'], 3):
+            if 'twin' not in w.taken(k, b.slot): made.append(w.mk(k, b, name='twin'))
+    root = w.pick('O', parent=bs[0].slot)
+    if root and root.name != 'twin' and 'twin' not in w.taken('O', root.slot): made.append(w.mk('O', root, name='twin'))
+    secs = w.alive('S', parent='$F')[:2]
+    while len(secs) < 2: secs.append(w.mk('S', None))
+    for s_ in secs:
+        if 'twin' not in w.taken('S', s_.slot): made.append(w.mk('S', s_, name='twin'))
+    if 'twin' not in w.taken('S', '$F'): made.append(w.mk('S', None, name='twin'))
+    return [e for e in made if e is not None and e.alive]
+
+def wrong_parent_deletes(w, rng, n):
+    """delete / unlink by the handle of an entity that lives under ANOTHER parent (and has the name of a child of this one): refused
+    with `false`, nothing changes"""
+    for _ in range(n):
+        v = w.pick(['A', 'D', 'T', 'G', 'O', 'S'])
+        if v is None: continue
+        same = [e for e in w.alive(v.kind) if e.name == v.name and e.parent != v.parent]
+        if not same and rng.random() < 0.7: continue
+        if same:
+            par = rng.choice(same).parent
+        else:
+            pk = [e for e in w.alive('B' if v.kind != 'S' else 'S') if e.slot != v.parent and e.slot != v.slot]
+            if not pk: continue
+            par = rng.choice(pk).slot
+        if v.kind == 'O' and not any(e.slot == par and e.kind in ('B', 'O') for e in w.ents): continue
+        w.emit('dump')
+        w.emit('del %s %s handle %s' % (v.kind, par, v.slot))
+        w.emit('dump')
+        w.emit('valid %s' % v.slot)
+    # a reference / a member removed by the handle of a namesake of another block
+    for t in w.alive(['T', 'M'])[:3]:
+        for a in [x for x in w.alive('A') if x.block != t.block][:2]:
+            w.emit('dump'); w.emit('unlink ref %s handle %s' % (t.slot, a.slot)); w.emit('dump')
+    for g in w.alive('G')[:2]:
+        for a in [x for x in w.alive(['A', 'D', 'T']) if x.block != g.block][:2]:
+            w.emit('dump'); w.emit('unlink %s %s handle %s' % (REL_OF[a.kind], g.slot, a.slot)); w.emit('dump')
+
 def history(rng, tier):
     w = World(rng, names=PLAIN)
     w.open('ow')
     build(w, rng, rng.randint(15, 35))
+    tw = twins(w, rng) if rng.random() < 0.6 else []
     roots = []
     for b in w.alive('B')[:2]:
         if not w.alive(['A'], block=b.slot): w.mk('A', b)
@@ -193,6 +292,16 @@ def history(rng, tier):
     if rng.random() < 0.5:
         w.reopen('rw')
         dense_links(w, rng)
+    if tw:
+        # references / members / sources to the twins, so that a wrong delete or unlink has something to take
+        for e in tw:
+            if e.kind == 'A':
+                for t in w.alive(['T', 'M'], block=e.block)[:2]: w.emit('link ref %s handle %s' % (t.slot, e.slot))
+            if e.kind in REL_OF:
+                for g in w.alive('G', block=e.block)[:1]: w.emit('link %s %s handle %s' % (REL_OF[e.kind], g.slot, e.slot))
+            if e.kind == 'O':
+                for h in w.alive(['A', 'T'], block=e.block)[:2]: w.emit('link src %s handle %s' % (h.slot, e.slot))
+        wrong_parent_deletes(w, rng, rng.randint(3, 6))
     for _ in range(rng.randint(3, 7)):
         cands = [e for e in w.alive() if e.kind != 'R' and not (e.kind == 'B' and len(w.alive('B')) == 1)]
         if not cands: break
@@ -247,6 +356,7 @@ def cases(tier, seed, rng):
     n = 60 if tier == 'quick' else 1500
     out = [Case(with_hdump(history(rng, tier), rng, 0.5), 'gen:graph') for _ in range(n)]
     out += [Case(with_hdump(frame_case(rng), rng, 0.5), 'gen:frames-in-use') for _ in range(4 if tier == 'quick' else 80)]
+    out += [Case(with_hdump(source_chain_case(rng), rng, 0.3), 'gen:source-chain') for _ in range(10 if tier == 'quick' else 200)]
     out += [Case(many_holders_case(rng, k), 'gen:many-holders') for k in ((40,) if tier == 'quick' else (33, 40, 64, 130))]
     out += [Case(with_hdump(holder_case(rng), rng, 0.5), 'gen:holder-fields') for _ in range(8 if tier == 'quick' else 150)]
     # link paths around 256 characters ("/data/b/data_arrays/<name>", "/data/b/tags/<name>/references/<id>", "/data/b/groups/<name>/data_arrays/<id>")
